@@ -6,6 +6,7 @@ package absnfs
 // need is concentrated in this file.
 
 import (
+	"runtime"
 	"bytes"
 	"fmt"
 	"io"
@@ -76,6 +77,59 @@ func (s *vfSrv) Close() {
 	}
 	s.nfs.Close()
 }
+
+// vfGuardAPI runs an API call on the server object that must come back while nothing else is in
+// flight (the caller guarantees that: no request parked at a backend gate, no other update). The
+// clock only decides when to look: if the call has not returned after 20 s, two goroutine dumps 2 s
+// apart are compared, and only when the calling goroutine sits in a mutex acquisition in both is
+// it a verdict (a lock that was never given back): the violation is recorded with StuckMarker,
+// which writes the record and ends the process. Anything else is inconclusive (false is returned
+// and the caller gives the server up).
+func vfGuardAPI(rec *evid.Rec, sig, what string, f func()) bool {
+	done := make(chan struct{})
+	var pv any
+	go func() {
+		defer close(done)
+		defer func() { pv = recover() }()
+		vfGuardedAPICall(f)
+	}()
+	select {
+	case <-done:
+		if pv != nil {
+			panic(pv)
+		}
+		return true
+	case <-time.After(20 * time.Second):
+	}
+	waiting := func() string {
+		buf := make([]byte, 8<<20)
+		buf = buf[:runtime.Stack(buf, true)]
+		for _, g := range strings.Split(string(buf), "\n\n") {
+			if strings.Contains(g, "vfGuardedAPICall") && (strings.Contains(g, "sync.(*RWMutex)") || strings.Contains(g, "sync.(*Mutex)")) {
+				lines := strings.Split(g, "\n")
+				return strings.Join(lines[:min64i(len(lines), 14)], "\n")
+			}
+		}
+		return ""
+	}
+	first := waiting()
+	time.Sleep(2 * time.Second)
+	second := waiting()
+	select {
+	case <-done:
+		return true
+	default:
+	}
+	if first != "" && second != "" {
+		vfStuckSeen.Store(true)
+		rec.Violate(sig, what+": the call has not returned and its goroutine sits in a lock acquisition in two goroutine dumps 2 s apart while nothing else is in flight - "+evid.StuckMarker, map[string]any{"goroutine": second})
+	}
+	rec.Inconclusive(1)
+	return false
+}
+
+//go:noinline
+func vfGuardedAPICall(f func()) { f() }
 
 func vfSetMaxHandles(n *AbsfsNFS, m int) {
 	n.fileMap.Lock()
